@@ -36,6 +36,11 @@ var c15Exprs = []string{
 	"reverse(`[1,2,3]`)", "sort(`[3,1,2]`)", "o[*].[a, reverse(`[\"p\",\"q\"]`)[0]]", "`[3,1,2]`[::-1]", "reverse(keys(m)) | sort(@)", "big[*].k", "big[*].k | [0]", "big[*].k | [-1]", "join(',', big[*].s)",
 	"big[?k > `300`].k | [0]", "big[].k | [5]", "map(&k, big) | [511]", "big[*].[k][] | [600]", "length(big[*].k)", "sort_by(big, &s)[0].k", "big[::-1][*].k | [0]",
 	"a", "o[*].a", "sort_by(o, &a)[*].k", "a + b",
+	// sibling members and sibling bindings that build their values from the same array (an evaluation that works on the
+	// shared array in place, or appends into its spare capacity, makes the siblings depend on their evaluation order)
+	"{p: [o, `[10]`][], q: [o, `[20]`][]}", "let $f = o[?a == `1`] in {p: [$f, `[10]`][], q: [$f, `[20]`][]}", "let $p = [pairs, `[[1]]`][], $q = [pairs, `[[2]]`][] in [$p, $q]",
+	"{p: [o[*].a, `[10]`][], q: [o[*].a, `[20]`][], r: o[*].a}", "let $f = o[*].k in {p: [$f, `[\"u\"]`][], q: length([$f, `[\"v\"]`][]), r: $f}", "{p: sort(pairs[*][0]), q: reverse(pairs[*][0]), r: pairs[*][0]}",
+	"let $f = o[?k] in {p: $f[?a], q: $f[?!a], r: $f}", "let $f = pairs[*][1] in {p: [$f, $f][], q: [$f][] , r: [`[0]`, $f][]}", "{p: merge(m, n), q: merge(m, `{\"x\":0}`), r: m}", "let $f = o[1:] in {p: [$f, `[1]`][], q: [$f, `[2]`][]}",
 }
 
 func c15Big(n int) string {
@@ -96,7 +101,7 @@ func init() {
 			"(all n! orders at every question reached, independently; when the tree exceeds the execution cap, every vector with at most two non-default answers, or at most one where even that tree exceeds 15 x the cap; the counters say how many pairs fell in each class); executions whose non-default answers are all at non-enumerating sites (let, multi-select hash, merge, equality, AST walk) must give the identical observation, " +
 			"executions that permute an enumerating site (object wildcard, keys, values, items) must agree after sorting the arrays; err-vs-err with different categories is permitted; a second phase repeats every point on the pristine build with Go's own randomised iteration; " +
 			"non-trivial = an (expression, document) pair with at least one question of two or more keys; distinct_nontrivial counts distinct default outcomes among them",
-		Phases: []core.Phase{{Name: "answers", Build: "instr", Fn: c15Run}, {Name: "runtime-order", Build: "pristine", Fn: c15RunPristine}, {Name: "other-expressions-first", Build: "pristine", Fn: c15RunEarlier}},
+		Phases: []core.Phase{{Name: "answers", Build: "instr", Fn: c15Run}, {Name: "runtime-order", Build: "pristine", Fn: c15RunPristine}, {Name: "other-expressions-first", Build: "pristine", Fn: c15RunEarlier}, {Name: "other-document-first", Build: "instr", Fn: c15RunOtherDoc}},
 		Judge:  c15Judge,
 		Assumptions: []string{
 			"the seam covers every range statement over a map in the four packages (the instrumenter lists the sites and any it had to skip); iteration inside encoding/json is sorted by the standard library",
@@ -580,6 +585,9 @@ func c15RunEarlier(r *core.Run) {
 
 func c15Judge(r *core.Run, phase string, pt map[string]any) *core.Violation {
 	c15SetTier(r)
+	if pbool(pt, "otherdoc") {
+		return c15OtherDocPoint(r, pstr(pt, "expr"), pstr(pt, "d1"), pstr(pt, "d2"))
+	}
 	if pbool(pt, "earlier") {
 		var di int
 		fmt.Sscan(pstr(pt, "di"), &di)
